@@ -2,7 +2,8 @@
 
 Enumerated: contents {empty, 1 byte, 10 compressible bytes, 64 incompressible bytes, 200 KiB compressible, 200 KiB
 incompressible, 300 KiB half/half (beyond the 128 KiB sampling window of the AUTO heuristic)} all in one container, stored
-{loose then pack_all_loose(m0) for m0 in NO/YES/KEEP/AUTO/True/False; directly to a pack plain; directly compressed},
+{loose then pack_all_loose(m0) for m0 in NO/YES/KEEP/AUTO/True/False; directly to a pack plain; directly compressed; directly with
+compressed and plain objects interleaved in the same packs},
 followed by *every* chain of repack(m) of length 3 over {KEEP, YES, NO, AUTO} (64 chains; all shorter chains are their
 prefixes), for zlib levels {1, 9} (quick) / 1..9 (thorough) and a small / the default pack_size_target.
 Oracle after every step: every object reads back unchanged (single, bulk, chunked); flag rule - YES: all stored
@@ -24,7 +25,8 @@ from .c01 import big_item
 LEVEL = 'model_checking'
 
 MODES = ('KEEP', 'YES', 'NO', 'AUTO')
-STORES = ['loose-NO', 'loose-YES', 'loose-KEEP', 'loose-AUTO', 'loose-True', 'loose-False', 'direct-plain', 'direct-compressed']
+STORES = ['loose-NO', 'loose-YES', 'loose-KEEP', 'loose-AUTO', 'loose-True', 'loose-False', 'direct-plain', 'direct-compressed',
+          'direct-mixed']
 
 
 def contents():
@@ -103,6 +105,13 @@ def _case(arg):
             c.pack_all_loose(compress={'True': True, 'False': False}.get(m0) if m0 in ('True', 'False') else CompressMode[m0])
             c.clean_storage()
             first_mode = m0
+        elif store == 'direct-mixed':
+            # compressed and plain objects interleaved in the same pack files (what KEEP must preserve object by object)
+            ka = c.add_objects_to_pack(items[0::2], compress=True)
+            kb = c.add_objects_to_pack(items[1::2], compress=False)
+            keys = [None] * len(items)
+            keys[0::2], keys[1::2] = ka, kb
+            first_mode = 'AUTO'
         else:
             comp = store == 'direct-compressed'
             keys = c.add_objects_to_pack(items, compress=comp)
@@ -137,7 +146,7 @@ def run(tier, report):
     cases = [(s, lv, tg, ch) for s in STORES for lv in levels for tg in targets for ch in chains]
     if q:
         # quick: all 64 chains for three representative stores, chains of length 2 (16) for the others
-        keep = {'loose-NO', 'direct-compressed', 'loose-AUTO'}
+        keep = {'loose-NO', 'direct-compressed', 'loose-AUTO', 'direct-mixed'}
         cases = [cse for cse in cases if cse[0] in keep or cse[3][2] == 'KEEP']
         cases = [(s, lv, tg, ch if s in keep else ch[:2]) for s, lv, tg, ch in cases]
     res = pmap(_case, cases, progress='C10' if len(cases) > 300 else None)
